@@ -1113,8 +1113,10 @@ class ClientRequest(ClientRequestBase):
         self._update_proxy(proxy, proxy_headers)
 
         self._update_body_from_data(data)
-        if data is not None or self.method not in self.GET_METHODS:
-            self._update_transfer_encoding()
+        # Always reconcile the Transfer-Encoding header with the chunked flag:
+        # a bodiless GET with chunked=True, or with a caller-supplied
+        # "Transfer-Encoding: chunked", must frame what it announces.
+        self._update_transfer_encoding()
         self._update_expect_continue(expect100)
         self._traces = traces
 
